@@ -234,7 +234,10 @@ class WorkWorld(World):
             nmax = 160 // per // 2     # so that the 2n instance still has n+e <= 160
             return {'family': fam, 'n': rng.randint(4, max(5, nmax)), 'nmax': nmax, 'seed': rng.getrandbits(32)}
         if leg == 'boc-bytes':
-            return {'ncells': rng.choice([1, 2, 3, 5, 8, 12]), 'exotic': rng.random() < 0.3, 'dag_seed': rng.getrandbits(32)}
+            cfg = {'ncells': rng.choice([1, 2, 3, 5, 8, 12]), 'exotic': rng.random() < 0.3, 'dag_seed': rng.getrandbits(32)}
+            if run_index % 4 == 3:
+                cfg['ladder'] = rng.choice([24, 32, 45, 60])
+            return cfg
         if leg == 'tl-bytes':
             return {'seed': rng.getrandbits(32), 'vclass': run_index}
         if leg == 'tl-nested':
@@ -456,9 +459,23 @@ class WorkWorld(World):
     # ------------------------------------------------------------------ boc bytes
     def run_boc_bytes(self, ctx, ops):
         cfg = ctx.cfg
-        cells = make_dag(cfg['dag_seed'], cfg['ncells'], cfg['exotic'])
+        if cfg.get('ladder'):
+            # a ladder of shared cells (each references the next one twice) whose data starts with a byte that names an exotic
+            # type: one flipped descriptor bit makes a cell claim to be pruned / library / Merkle while it has references - a
+            # malformed cell on top of 2^depth paths.  Rejecting it (or not) must cost the input's length, not the number of paths
+            lr = random.Random(cfg['dag_seed'])
+            cur = RCell(enc_uint(lr.choice([1, 2, 3, 4]), 8) + enc_uint(lr.getrandbits(8), 8))
+            cells = [cur]
+            for i in range(cfg['ladder']):
+                cur = RCell(enc_uint(lr.choice([1, 1, 2, 3, 4, lr.getrandbits(8)]), 8) + enc_uint(i & 255, 8), (cur, cur))
+                cells.append(cur)
+            ctx.probe('shared-ladder-with-exotic-looking-data')
+        else:
+            cells = make_dag(cfg['dag_seed'], cfg['ncells'], cfg['exotic'])
         if ops is None:
             f = draw_freedoms(ctx.rng, cells)
+            if cfg.get('ladder'):
+                f['nroots'], f['hashes'] = 1, 'none'
             enc_op = {'op': 'encode', 'freedoms': f}
         else:
             enc_op = next((o for o in ops if o['op'] == 'encode'), None)
@@ -484,6 +501,8 @@ class WorkWorld(World):
                 r = random.Random(d['seed'])
                 for _ in range(r.choice([2, 3, 5])):
                     b[r.randrange(len(b))] = r.choice([0, 1, 0x7f, 0x80, 0xfe, 0xff, r.getrandbits(8)])
+            elif k == 'special-bit':
+                b[d['pos'] % len(b)] |= 8
             elif k == 'truncate':
                 b = b[:d['len']]
                 return bytes(b)
@@ -503,6 +522,9 @@ class WorkWorld(World):
             for pos in range(4, min(L, 40)):
                 for width in (2, 3, 4, 8):
                     plan.append({'kind': 'field', 'pos': pos, 'width': width, 'val': 0xff})
+            for pos in range(L):
+                if not data[pos] & 8:
+                    plan.append({'kind': 'special-bit', 'pos': pos})
             for k in range(60):
                 plan.append({'kind': 'multi', 'seed': ctx.rng.getrandbits(32)})
             for ln in range(0, L, 7):
